@@ -433,8 +433,9 @@ func c13Body(d c13Desc) func() {
 					}
 				}
 			}
-			st.log = append(st.log, fmt.Sprintf("%s names=%v", op, s.VerifNames()))
-			if got := s.VerifNames(); !reflect.DeepEqual(got, names) {
+			got := s.VerifNames()
+			st.log = append(st.log, fmt.Sprintf("%s names=%v", op, got))
+			if !reflect.DeepEqual(got, names) {
 				fail("step %d %s: registered names %q, reference %q", step, op, got, names)
 			}
 		}
